@@ -126,6 +126,10 @@ def cases(tier, seed):
                 for w in U.words(alpha, n):
                     for fn in REDUCERS:
                         yield {"k": "reduce", "dtype": d, "a": w, "fn": fn}
+                    if d in ("int64", "float64") and n <= 4:
+                        for dv in ("ge-min", "gt-max", "times0"):
+                            for fn in ("any", "all", "sum", "max", "mean"):
+                                yield {"k": "reduce", "dtype": d, "a": w, "fn": fn, "derive": dv}
     # concatenation
     mixes = [("int64", A2, "int64", B2), ("float64", [float("nan"), -0.0], "float32", [0.0, 1.5]),
              ("uint8", [255, 0], "int8", [-1, 0]), ("bool", [False, True], "bool", [False, True])]
@@ -209,7 +213,7 @@ def _tag(case):
         return f"unary:{case['u']}"
     if k == "concat":
         return "concat"
-    return f"{case['fn']}:{case['dtype']}"
+    return f"{case['fn']}:{case['dtype']}" + (":" + case["derive"] if case.get("derive") else "")
 
 
 def _what(case):
@@ -225,7 +229,8 @@ def _what(case):
         return f"{name}({a}, {s})" if case["side"] == "r" else f"{name}({s}, {a})"
     if k == "ufunc2":
         return f"{name}({a}, rla({U.show(U.arr(case['b'], case['dtype2']))}))"
-    return f"{case['fn']} of {a}"
+    dv = {"ge-min": " >= its minimum", "gt-max": " > its maximum", "times0": " * 0"}.get(case.get("derive"), "")
+    return f"{case['fn']} of {a}{dv}"
 
 
 def _check_operation(case):
@@ -287,6 +292,15 @@ def _check_reduce(case):
     fn = case["fn"]
     tag, what = _tag(case), _what(case)
     r = RunLengthArray.from_array(a.copy())
+    if case.get("derive"):
+        # the operand of the reduction is itself a result of the library (unary / scalar ufuncs keep the run boundaries, so neighbouring runs
+        # may carry equal values): "on the decoded array" holds for these as for freshly encoded ones
+        if case["derive"] == "ge-min":
+            r, a = (r >= a.min()), (a >= a.min())
+        elif case["derive"] == "gt-max":
+            r, a = (r > a.max()), (a > a.max())
+        else:
+            r, a = (r * 0), (a * 0)
     before = U.snapshot(r)
     if fn in ("histogram", "histogram3"):
         calls = [("np.histogram(rla)", lambda x: np.histogram(x))] if fn == "histogram" else \
